@@ -56,6 +56,10 @@ pub struct Hist {
     /// the cache is only valid for lines produced by this process's generator
     lines_run: usize,
     pub cache_from: usize,
+    /// per store: the dump after the last mutating op, with the key it is valid for
+    last_dump: std::cell::RefCell<[Option<((usize, usize, u64), String)>; 2]>,
+    /// number of mutating op lines executed in this history
+    mutations: std::cell::Cell<u64>,
 }
 
 fn range_err_kind(e: &BlockRangesError) -> &'static str {
@@ -129,12 +133,16 @@ impl Hist {
             next_key: 0,
             lines_run: 0,
             cache_from: usize::MAX,
+            last_dump: std::cell::RefCell::new([None, None]),
+            mutations: std::cell::Cell::new(0),
         }
     }
 
     fn reset(&mut self) {
         self.mem = InMemoryStore::new();
         self.redb = self.rt.block_on(RedbStore::in_memory()).unwrap();
+        *self.last_dump.borrow_mut() = [None, None];
+        self.mutations.set(0);
         self.pool.clear();
         self.valid.clear();
         self.pool_of_bytes.clear();
@@ -217,6 +225,16 @@ impl Hist {
                 let of = arg_u64(line, "of")? as usize;
                 let mut h = self.pool.get(of)?.clone();
                 unverify(&mut h);
+                vec![h]
+            }
+            "relink" => {
+                // unvalidated header: a copy of `of` whose last_block_id points to `prev`
+                // (its own hash stays that of `of`)
+                let of = arg_u64(line, "of")? as usize;
+                let prev = arg_u64(line, "prev")? as usize;
+                let mut h = self.pool.get(of)?.clone();
+                let ph = self.pool.get(prev)?.hash();
+                h.header.last_block_id.as_mut()?.hash = ph;
                 vec![h]
             }
             "setheight" => {
@@ -507,10 +525,27 @@ impl Hist {
         if s.starts_with("panic") { "panic".into() } else { s }
     }
 
-    fn mutating_op<S: Store>(&self, s: &S, line: &str) -> String {
-        let pre = if self.mode == Mode::C20 { Some(self.rt.block_on(self.dump(s))) } else { None };
+    /// `which`: 0 = in-memory store, 1 = redb.  The state dump BEFORE an operation is the dump
+    /// taken after the previous mutating operation when nothing else happened in between
+    /// (queries do not mutate; the key covers pool growth, which changes the dumped universe).
+    fn mutating_op<S: Store>(&self, s: &S, line: &str, which: usize) -> String {
+        let key = (self.pool.len(), self.hash_by_id.len(), self.mutations.get());
+        let pre = if self.mode == Mode::C20 {
+            let cached = self.last_dump.borrow()[which].clone();
+            Some(match cached {
+                Some((k, d)) if k == key => d,
+                _ => self.rt.block_on(self.dump(s)),
+            })
+        } else {
+            None
+        };
         let res = Self::canon(guarded(|| self.rt.block_on(self.mutate(s, line))));
         let post = Self::canon(guarded(|| self.rt.block_on(self.dump(s))));
+        if which == 1 {
+            self.mutations.set(self.mutations.get() + 1);
+        }
+        let key_after = (self.pool.len(), self.hash_by_id.len(), if which == 1 { self.mutations.get() } else { self.mutations.get() + 1 });
+        self.last_dump.borrow_mut()[which] = Some((key_after, post.clone()));
         let mut out = format!("{res} ; {post}");
         if let Some(pre) = pre {
             if res != "ok" {
@@ -538,8 +573,8 @@ impl Hist {
                         return "oracle-mismatch".into();
                     }
                 }
-                let m = self.mutating_op(&self.mem, line);
-                let r = self.mutating_op(&self.redb, line);
+                let m = self.mutating_op(&self.mem, line, 0);
+                let r = self.mutating_op(&self.redb, line, 1);
                 format!("mem {m} || redb {r}")
             }
             "dump" => {
@@ -585,6 +620,8 @@ pub struct GenCfg {
     pub max_batch: usize,
     /// weight (0..100) of deliberately invalid inserts among inserts
     pub invalid_pct: u64,
+    /// among the invalid inserts: weight (0..100) of legal placements with a repeated hash at a chosen position
+    pub dup_pct: u64,
     /// weight of removals among ops
     pub remove_w: u64,
     pub query_w: u64,
@@ -759,7 +796,10 @@ impl<'a> Gen<'a> {
         let tip_h = self.info[tip].height;
         let maxb = cfg.max_batch as u64;
 
-        if !rng.chance(cfg.invalid_pct, 100) {
+        let want_valid = !rng.chance(cfg.invalid_pct, 100);
+        // a batch at a legal place whose header at a chosen position repeats a known hash
+        let want_dup = !want_valid && rng.chance(cfg.dup_pct, 100);
+        if want_valid || want_dup {
             // ---- mostly-valid placement: touch a stored range, fill a gap, new head, or empty store
             // prefer a path that agrees with what is stored (so that seams verify)
             let mut cand: Vec<(u64, u64, &'static str)> = vec![];
@@ -817,6 +857,10 @@ impl<'a> Gen<'a> {
                     }
                 }
                 let ids = self.slice(best, lo, hi);
+                if want_dup {
+                    self.emit_dup_hash(rng, out, ids);
+                    return;
+                }
                 let via_one = ids.len() == 1 && rng.bool();
                 self.emit_insert(out, &ids, tag, via_one);
                 return;
@@ -827,7 +871,16 @@ impl<'a> Gen<'a> {
         let lo = rng.range(1, tip_h);
         let hi = (lo + rng.below(maxb)).min(tip_h);
         let mut ids = self.slice(tip, lo, hi);
-        match rng.below(9) {
+        match rng.below(10) {
+            9 => {
+                // a header claiming height 0: invalid range
+                let of = rng.below(self.info.len() as u64) as usize;
+                let id = self.info.len();
+                self.gen_line(out, format!("kind=setheight of={of} h=0"), "gen/setheight", vec![], "setheight");
+                if self.info.len() == id + 1 {
+                    self.emit_insert(out, &[id], "insert/height-zero", rng.bool());
+                }
+            }
             0 => {
                 // anywhere: overlap / no neighbours / whatever
                 self.emit_insert(out, &ids, "insert/random-placement", false);
@@ -902,6 +955,59 @@ impl<'a> Gen<'a> {
         }
     }
 
+    /// `ids` is a batch at a legal place.  Make the header at a chosen position repeat a hash that
+    /// is stored or occurs earlier in the batch (unvalidated mutant built on demand), and re-link
+    /// its successor so that the batch still verifies internally: the store must answer
+    /// `HashExists` for exactly that position and keep nothing of the batch.
+    fn emit_dup_hash(&mut self, rng: &mut Rng, out: &mut Emitter, mut ids: Vec<usize>) {
+        if ids.is_empty() {
+            return;
+        }
+        let i = rng.usize(0, ids.len() - 1);
+        // the hash to repeat
+        let st = self.stored();
+        let stored_src = if rng.bool() || i == 0 {
+            let v: &[std::ops::RangeInclusive<u64>] = st.as_ref();
+            if v.is_empty() { None } else {
+                let r = rng.pick(v).clone();
+                self.stored_id(rng.range(*r.start(), *r.end()))
+            }
+        } else {
+            None
+        };
+        let src = match stored_src {
+            Some(s) => s,
+            None if i > 0 => ids[rng.usize(0, i - 1)],
+            None => {
+                // empty store and first position: nothing to repeat
+                self.emit_insert(out, &ids, "insert/empty-store", false);
+                return;
+            }
+        };
+        let of = ids[i];
+        let m = self.info.len();
+        let mut base = self.info[of].path.clone();
+        base.pop();
+        self.gen_line(out, format!("kind=duphash of={of} hashof={src}"), "gen/duphash-on-demand", base, "duphash");
+        if self.info.len() != m + 1 {
+            return;
+        }
+        ids[i] = m;
+        if i + 1 < ids.len() {
+            let nx = ids[i + 1];
+            let r = self.info.len();
+            let mut base = self.info[m].path.clone();
+            base.push(m);
+            self.gen_line(out, format!("kind=relink of={nx} prev={m}"), "gen/relink", base, "relink");
+            if self.info.len() != r + 1 {
+                return;
+            }
+            ids[i + 1] = r;
+        }
+        let tag = if i == 0 { "insert/dup-hash-first" } else if i + 1 == ids.len() { "insert/dup-hash-last" } else { "insert/dup-hash-middle" };
+        self.emit_insert(out, &ids, tag, false);
+    }
+
     fn some_height(&self, rng: &mut Rng, prefer_stored: bool) -> u64 {
         let st = self.stored();
         let v: &[std::ops::RangeInclusive<u64>] = st.as_ref();
@@ -972,7 +1078,9 @@ impl<'a> Gen<'a> {
 }
 
 pub fn gen_all(h: &mut Hist, rng: &mut Rng, cfg: &GenCfg, out: &mut Emitter) {
-    h.cache_from = out.len();
+    if h.cache_from == usize::MAX {
+        h.cache_from = out.len();
+    }
     // a panic while generating is a harness bug: make it visible (the framework silences the hook)
     let r = guarded(|| {
         let mut g = Gen::new(h);
